@@ -116,6 +116,8 @@ def gen_inputs(ctx, tier):
     nmac = 8000 if tier == "quick" else core.share(150000)
     for _ in range(nmac):
         inputs.append(("macro_soup", gen_text.macro_soup(rng)))
+    for _ in range(nmac):
+        inputs.append(("macro_fuzz", gen_text.macro_fuzz(rng)))
     # every exported procedure called with 0..3 arguments of assorted types, directly and from tail positions
     args_pool = ["1", "'a", "'(1 2)", "#(1 2)", "car", "\"s\"", "-1", "1/2", "1.5", "'()", "#t"]
     for name in gen_text.stdlib_exports():
@@ -145,14 +147,24 @@ def gen_inputs(ctx, tier):
     for _ in range(nh):
         inputs.append(("hostile_chars", gen_text.hostile(rng, vocab)))
     # the numeric tower reached from text: arithmetic over boundary literals
-    nums = ["2147483647", "-2147483648", "46341", "65536", "1/2", "-1/2", "3/65536", "1.5", "0", "-1", "1e38", "7/46341", "0.0"]
-    ops = ["+", "-", "*", "/", "max", "min", "<", "=", "abs", "floor", "ceiling", "floor-quotient", "floor-remainder", "exact",
-           "sqrt", "exp", "log", "atan2", "eqv?"]
+    nums = ["2147483647", "-2147483648", "46341", "65536", "1/2", "-1/2", "3/65536", "1.5", "0", "-1", "1e38", "7/46341", "0.0",
+            "-2147483648/3", "2147483647/2", "-2147483647/2147483646", "1/2147483647", "-2147483648/2147483647", "16777217", "1e-45", "-0.0", "3.4e38", "-1e38", "0.5"]
+    ops = ["+", "-", "*", "/", "max", "min", "<", "=", ">=", "abs", "floor", "ceiling", "round", "truncate", "floor-quotient", "floor-remainder", "floor/",
+           "truncate-quotient", "truncate-remainder", "quotient", "remainder", "modulo", "gcd", "lcm", "exact", "inexact", "exact->inexact", "inexact->exact",
+           "numerator", "denominator", "square", "expt", "number->string", "zero?", "positive?", "negative?", "odd?", "even?", "integer?", "rational?", "exact?",
+           "sqrt", "exp", "log", "atan2", "eqv?", "equal?", "make-vector", "vector-ref", "list-tail", "make-list"]
     for op in ops:
         for a in nums:
             inputs.append(("numeric", "(%s %s)" % (op, a)))
             for b in nums:
-                inputs.append(("numeric", "(%s %s %s)" % (op, a, b)))
+                inputs.append(("numeric", gen_text.tame("(%s %s %s)" % (op, a, b))))
+    for _ in range(2000 if tier == "quick" else core.share(40000)):
+        # n-ary arithmetic and compositions over the same boundary values
+        k = rng.randint(3, 5)
+        e = "(%s %s)" % (rng.choice(["+", "-", "*", "/", "max", "min", "<", "="]), " ".join(rng.choice(nums) for _ in range(k)))
+        if rng.random() < 0.5:
+            e = "(%s %s)" % (rng.choice(["floor", "ceiling", "abs", "-", "/", "exact", "number->string"]), e)
+        inputs.append(("numeric", e))
     return inputs
 
 
